@@ -153,6 +153,16 @@ func (cs ClientState) UpgradeState(
 	store sdk.KVStore,
 	state exported.ConsensusState,
 ) error {
+	if _, ok := state.(*ConsensusState); !ok {
+		return sdkerrors.Wrapf(
+			clienttypes.ErrInvalidConsensus,
+			"invalid consensus state. expected type: %T, got: %T",
+			&ConsensusState{}, state,
+		)
+	}
+	// the consensus state installed by the upgrade is processed now: without its metadata no proof
+	// at the upgraded height could ever pass the delay check, and the state would never be pruned
+	setConsensusMetadata(ctx, store, cs.GetLatestHeight())
 	return nil
 }
 
